@@ -34,7 +34,7 @@ CLAIMS = {
  "C11": dict(category="proof", design="4/C11",
   text="112 Lean theorems: commutativity/associativity of add, subtract inverts add, scale distributes and composes, negation = scale -1, dot symmetric/bilinear (Euclidean 2D/3D, Minkowski 4D), "
        "v.v = rho2/mag2/tau2, cross antisymmetric/bilinear/orthogonal, Lagrange identity, unit has norm one and is parallel - for ALL coordinate-system combinations at once, as corollaries of "
-       "the refinement theorems over the regenerated model. abs/**/@ routing: glue model + symbolic correspondence (C05).",
+       "the refinement theorems over the regenerated model. abs/**/@ routing: glue model + symbolic correspondence (C05). METHOD LEVEL (Props/MethodBin.lean, 68 theorems): the public calls add/subtract/dot/cross/scale/unit and the operators, as modelled by the glue on top of the regenerated real layer, denote the sum/difference/products of the operands' denotations for every well-formed operand in every storage pairing, with result dimension, flavor, backend; dimension guards for all operands.",
   note=TB + "tau-stored vectors scaled by a negative factor are outside the representable domain (partial theorems say so).",
   technique="Lean 4 proofs (corollaries of Spec refinement) over translator-generated model; mp law sweep"),
  "C16": dict(category="other", design="4/C16",
@@ -74,7 +74,7 @@ CLAIMS = {
   text="Theorems about the glue model for all scalar types and compute layers: projections keep the retained stored coordinates verbatim (prefix), embeddings keep all "
        "stored coordinates and add exactly the keyword's value in the keyword's coordinate type or zero, to_<own system> is the identity (under the identity-accessor "
        "laws, proved for the generated copy), the 40-entry to_* table with momentum spellings. Model tied to the code by exact symbolic correspondence on the whole "
-       "conversion lattice (20 sources x 40 targets x keywords x 2 flavors), plus a dimension-change lattice on NumPy and Awkward arrays with float64 / int64 / float32 columns (retained coordinates and imputed keyword values exact). Round trips over the reals: accessor refinements (C01).",
+       "conversion lattice (20 sources x 40 targets x keywords x 2 flavors), plus a dimension-change lattice on NumPy and Awkward arrays with float64 / int64 / float32 columns (retained coordinates and imputed keyword values exact). Round trips over the reals: accessor refinements (C01). METHOD LEVEL (Props/MethodConv.lean, 85 theorems): over the reals every one of the 40 to_<system>() calls keeps the denotation, every same-dimension round trip returns the stored coordinates under Canon, lower-dimensional operands get the keyword value or zero verbatim; deltaphi/deltaeta/deltaR/deltaangle and the angle predicates at call level.",
   note=GL, technique="Lean 4 proofs about a hand-written executable model + exact symbolic correspondence with the object backend"),
  "C05": dict(category="proof", design="4/C05",
   text="Theorems: handler = first operand of maximal backend priority; result backend/flavor rule of dispatch; dimension rule of _wrap_result per declared result shape; "
@@ -109,7 +109,7 @@ CLAIMS = {
  "C09": dict(category="proof", design="4/C09",
   text="64 Lean theorems on the generated boost functions for all reals with |beta|<1: Minkowski product preserved, inverse by the opposite boost, velocity addition along an axis, "
        "boost_p4 = boost_beta3 o to_beta3, boostX/Y/Z(beta) = boost_beta3 along the axis = boostX/Y/Z(gamma) for the matching gamma, boostCM_of_p4(v,v) = (0,0,0,tau), tau preserved; "
-       "all coordinate systems via the C01 refinement of the boosts. boost()/boostCM_of() dispatch: glue model + symbolic correspondence.",
+       "all coordinate systems via the C01 refinement of the boosts. boost()/boostCM_of() dispatch: glue model + symbolic correspondence. METHOD LEVEL (Props/MethodLorentz.lean, 86 theorems): 4D accessors, boostX/Y/Z (beta/gamma), boost_p4, boost_beta3, boost, boostCM_of*, to_beta3 and the causal predicates as PUBLIC CALLS (glue model on the regenerated real layer) in every storage: denotation, result type, Minkowski product preserved across any two storages, guards.",
   note=TB, technique="Lean 4 proofs (linear_combination certificates) over translator-generated model"),
  "C10": dict(category="proof", design="4/C10",
   text="78 Lean theorems on the generated rotation functions for all reals: axis rotations are the active right-handed matrices; all 12 Euler orders equal the documented product "
@@ -119,7 +119,7 @@ CLAIMS = {
  "C12": dict(category="proof", design="4/C12",
   text="Lean 4 theorems over the regenerated model: for ALL 4/36/144 coordinate-system key pairs and all reals, != <-> not ==, == reflexive/symmetric, same-system == and isclose "
        "characterised coordinate-wise, isclose reflexive, implied by == and monotone in both tolerances. Operator/method/numpy-function routing on object, NumPy and Awkward backends "
-       "is checked differentially against the Lean model evaluated at IEEE double, and the coordinate-wise DEFINITION of isclose is checked on every same-system key with |a-b| on either side of atol + rtol*|b| (five tolerance pairs, three magnitudes, all backends). Known findings: numpy.isclose/allclose on object and Awkward vectors.",
+       "is checked differentially against the Lean model evaluated at IEEE double, and the coordinate-wise DEFINITION of isclose is checked on every same-system key with |a-b| on either side of atol + rtol*|b| (five tolerance pairs, three magnitudes, all backends). Known findings: numpy.isclose/allclose on object and Awkward vectors. METHOD LEVEL (Props/MethodOps.lean, 82 theorems): the same laws for the public calls/operators in every storage pairing; == implies equal denotations under Canon (converse false, witness); abs/**/sqrt/cbrt are functions of the norm; transform2D/3D/4D; like.",
   note=TB + "NaN is outside the real model; NumPy/Awkward element-wise semantics sampled, not proved.",
   technique="Lean 4 proof over translator-generated model + differential correspondence (Lean Float model vs real backends)"),
  "C13": dict(category="proof", design="4/C13",
@@ -138,7 +138,7 @@ CLAIMS = {
   text="The object vector as a state machine (assignment to any coordinate by any spelling, += -= *= /=): by induction over ALL finite histories class/flavor/dimension are invariant, "
        "a raising step leaves the state unchanged, in-place operators keep the coordinate system and equal replaceData of the functional result, assignments store the value verbatim, "
        "keep the other groups' stored coordinates and read back exactly (under the identity-accessor laws, proved for the generated copy). Tie: per-step exact symbolic correspondence "
-       "on generated histories (valid and malformed), incl. id()/type() of the real object.",
+       "on generated histories (valid and malformed), incl. id()/type() of the real object. VALUE HALF over the reals (Props/MethodState.lean, 60 theorems): what the vector DENOTES after each assignment, _replace_data = to_<own system> of the functional result, += -= *= /= denote the functional result in all 4/36/144 pairings, histories by induction under an explicit representability invariant.",
   note=GL, technique="Lean 4 proofs by induction over operation sequences + exact symbolic per-step correspondence"),
 }
 PENDING = {}
